@@ -72,7 +72,7 @@ func main() {
 		}
 	}
 	out := map[string][]uint64{}
-	for i, f := range props.FixedFamilies20 {
+	for i, f := range props.Families20(os.Getenv("VERIF_TIER_NAME")) {
 		if i%workers != worker {
 			continue
 		}
